@@ -52,15 +52,42 @@ var (
 	readyCh   = make(chan struct{}, 16)
 )
 
-// FreePort returns a TCP port that was free a moment ago on 127.0.0.1.
+// FreePort returns a loopback TCP port claimed exclusively for this process: ports are
+// drawn below the kernel's ephemeral range and claimed through an O_EXCL file under
+// /dev/shm/verifports, so that the many worker processes running in parallel (each of which
+// closes the probe socket before the teamserver binds the port) can never hand the same
+// port to two teamservers. Claims older than 20 minutes are recycled.
 func FreePort() int {
-	l, err := net.Listen("tcp", "127.0.0.1:0")
-	if err != nil {
-		return 0
+	dir := "/dev/shm/verifports"
+	if err := os.MkdirAll(dir, 0o777); err != nil {
+		dir = filepath.Join(os.TempDir(), "verifports")
+		os.MkdirAll(dir, 0o777)
 	}
-	p := l.Addr().(*net.TCPAddr).Port
-	l.Close()
-	return p
+	seed := time.Now().UnixNano() ^ int64(os.Getpid())<<20
+	for try := 0; try < 2000; try++ {
+		seed = seed*6364136223846793005 + 1442695040888963407
+		port := 10000 + int(uint64(seed)>>33)%22000
+		claim := filepath.Join(dir, strconv.Itoa(port))
+		f, err := os.OpenFile(claim, os.O_CREATE|os.O_EXCL|os.O_WRONLY, 0o666)
+		if err != nil {
+			if st, e2 := os.Stat(claim); e2 == nil && time.Since(st.ModTime()) > 20*time.Minute {
+				os.Remove(claim)
+			}
+			continue
+		}
+		fmt.Fprintf(f, "%d\n", os.Getpid())
+		f.Close()
+		l4, err := net.Listen("tcp", fmt.Sprintf("127.0.0.1:%d", port))
+		if err != nil {
+			continue
+		}
+		l4.Close()
+		if l6, err := net.Listen("tcp", fmt.Sprintf("[::1]:%d", port)); err == nil {
+			l6.Close()
+		}
+		return port
+	}
+	return 0
 }
 
 func repoRoot() string {
@@ -108,7 +135,13 @@ func (o *Options) profileText(port int) string {
 func New(o Options) (*Rig, error) {
 	r := &Rig{Opts: o, Host: "127.0.0.1"}
 	if o.Dir == "" {
-		d, err := os.MkdirTemp("", "verifrig-")
+		// the driver points VERIF_RIG_BASE at a per-run directory on tmpfs (sqlite fsyncs
+		// dominate otherwise) and removes it afterwards
+		base := os.Getenv("VERIF_RIG_BASE")
+		if base != "" {
+			os.MkdirAll(base, 0o755)
+		}
+		d, err := os.MkdirTemp(base, "verifrig-")
 		if err != nil {
 			return nil, err
 		}
